@@ -371,13 +371,13 @@ static rc::Gen<FileCase> genFile() {
 // ---------------------------------------------------------------- phase scripts: silent progress, restart with a new window, pause / re-enable
 struct SStep { int op = 0, a = 0, b = 0; };
 struct ScriptCase {
-  int ev_flags = 0, after_every_read = 0, on_timeout = 0, pause_data_k = 0, timeout_ms = 0, buf_size = 64, win_off = 0, win_len = 64, setup_mode = 0;
+  int ev_flags = 0, after_every_read = 0, on_timeout = 0, pause_data_k = 0, timeout_ms = 0, buf_size = 64, win_off = 0, win_len = 64, setup_mode = 0, final_reset = 0;
   std::vector<SStep> steps;
   Bytes plan;
   std::string ser() const {
     Writer w;
     w.i("ev_flags", ev_flags).i("after_every_read", after_every_read).i("on_timeout", on_timeout).i("pause_data_k", pause_data_k).i("timeout_ms", timeout_ms)
-        .i("buf_size", buf_size).i("win_off", win_off).i("win_len", win_len).i("setup_mode", setup_mode).i("nsteps", (long long)steps.size());
+        .i("buf_size", buf_size).i("win_off", win_off).i("win_len", win_len).i("setup_mode", setup_mode).i("final_reset", final_reset).i("nsteps", (long long)steps.size());
     for (size_t i = 0; i < steps.size(); i++) w.iv(("s" + std::to_string(i)).c_str(), {steps[i].op, steps[i].a, steps[i].b});
     w.b("plan", plan);
     return w.str();
@@ -386,7 +386,7 @@ struct ScriptCase {
     Reader r(t);
     ScriptCase c;
     c.ev_flags = (int)r.i("ev_flags"); c.after_every_read = (int)r.i("after_every_read"); c.on_timeout = (int)r.i("on_timeout"); c.pause_data_k = (int)r.i("pause_data_k");
-    c.timeout_ms = (int)r.i("timeout_ms"); c.buf_size = (int)r.i("buf_size", 64); c.win_off = (int)r.i("win_off"); c.win_len = (int)r.i("win_len", 64); c.setup_mode = (int)r.i("setup_mode");
+    c.timeout_ms = (int)r.i("timeout_ms"); c.buf_size = (int)r.i("buf_size", 64); c.win_off = (int)r.i("win_off"); c.win_len = (int)r.i("win_len", 64); c.setup_mode = (int)r.i("setup_mode"); c.final_reset = (int)r.i("final_reset");
     int n = (int)r.i("nsteps");
     for (int i = 0; i < n; i++) { auto v = r.iv(("s" + std::to_string(i)).c_str()); v.resize(3, 0); c.steps.push_back(SStep{(int)v[0], (int)v[1], (int)v[2]}); }
     c.plan = r.b("plan");
@@ -400,7 +400,7 @@ static Verdict run_script(const ScriptCase &c) {
   c16s_scn s;
   memset(&s, 0, sizeof s);
   s.ev_flags = (uint8_t)(c.ev_flags == 2 ? 2 : 0); s.after_every_read = (uint8_t)(c.after_every_read != 0); s.on_timeout = (uint8_t)(c.on_timeout != 0);
-  s.pause_data_k = (uint8_t)std::max(0, std::min(c.pause_data_k, 20)); s.timeout_ms = (uint16_t)c.timeout_ms; s.setup_mode = (uint8_t)(c.setup_mode != 0);
+  s.pause_data_k = (uint8_t)std::max(0, std::min(c.pause_data_k, 20)); s.timeout_ms = (uint16_t)c.timeout_ms; s.setup_mode = (uint8_t)(c.setup_mode != 0); s.final_reset = (uint8_t)std::max(0, std::min(c.final_reset, 3));
   s.buf_size = (uint16_t)c.buf_size; s.win_off = (uint16_t)c.win_off; s.win_len = (uint16_t)c.win_len;
   s.nsteps = (uint8_t)std::min<size_t>(c.steps.size(), C16S_MAX_STEPS);
   for (int i = 0; i < s.nsteps; i++) {
@@ -424,7 +424,8 @@ static Verdict run_script(const ScriptCase &c) {
     if (o.hang) { v = Verdict::fail("hang: the owning thread stopped serving its queue"); label("hang_rerun"); continue; }
     // invariants over the history
     if (getenv("VERIF_C16S_DUMP")) for (uint32_t i = 0; i < o.nlog; i++) { const c16s_rec &r = o.log[i]; fprintf(stderr, "rec %u type %d err %d eof %u tr %llu adv %llu n %llu off %llu trsz %llu pauses %d skipped %d rc %d\n", i, r.type, r.error, r.eof, (unsigned long long)r.transfered, (unsigned long long)r.adv, (unsigned long long)r.n, (unsigned long long)r.offset, (unsigned long long)r.tr_size, r.pauses, r.skipped, r.rc); }
-    bool paused = false, destroyed = false, nt = false;
+    bool paused = false, destroyed = false, nt = false, after_reset_report = false;
+    int resets_reported = 0;
     uint64_t written_while_paused = 0;
     int pause_idx = -1;
     for (uint32_t i = 0; i < o.nlog; i++) {
@@ -439,8 +440,16 @@ static Verdict run_script(const ScriptCase &c) {
                                  << " answered with TP_TASK_CB_NONE and neither tp_task_enable(1) nor a restart followed");
         PBT_REQUIRE(!r.mismatch, tag << ": the bytes placed in the window are not the next bytes of the stream");
         PBT_REQUIRE(r.transfered == r.adv, tag << ": callback reports " << r.transfered << " transferred bytes, " << r.adv << " bytes were moved into the window since the previous report / (re)start");
-        PBT_REQUIRE(r.error == 0 || r.error == ETIMEDOUT, tag << ": error " << r.error << " reported on a healthy connection");
-        PBT_REQUIRE(!(r.eof & 2), tag << ": end of stream reported while the peer is open");
+        PBT_REQUIRE(!after_reset_report, tag << ": callback after the connection error had been reported and the task was stopped");
+        if (c.final_reset && r.error != 0 && r.error != ETIMEDOUT) {
+          PBT_REQUIRE(r.error == ECONNRESET, tag << ": error " << r.error << " reported, the connection was reset (ECONNRESET)");
+          resets_reported++;
+          after_reset_report = true;
+          label(r.adv ? "script_reset_reported_with_data" : "script_reset_reported");
+        } else {
+          PBT_REQUIRE(r.error == 0 || r.error == ETIMEDOUT, tag << ": error " << r.error << " reported on a healthy connection");
+          if (!c.final_reset) PBT_REQUIRE(!(r.eof & 2), tag << ": end of stream reported while the peer is open");
+        }
         if (r.error == ETIMEDOUT) { PBT_REQUIRE(c.timeout_ms != 0, tag << ": timeout reported by a task without a timeout"); label("script_timeout_reported"); if (r.adv) label("script_timeout_reports_silent_bytes"); }
         if (r.pauses) { paused = true; pause_idx = (int)i; written_while_paused = 0; label(r.error == ETIMEDOUT ? "script_paused_on_timeout" : "script_paused_on_data"); }
         break;
@@ -473,10 +482,12 @@ static Verdict run_script(const ScriptCase &c) {
       }
     }
     if (o.never_reported) {
-      v = Verdict::fail(o.never_reported & 1 ? "the stream went on (and the task was re-enabled if paused) but the next full window was never reported" : "an armed idle task never reported its timeout");
+      v = Verdict::fail(o.never_reported & 1 ? "the stream went on (and the task was re-enabled if paused) but the next full window was never reported"
+                        : o.never_reported & 4 ? "the connection was reset with payload queued: neither the error nor the end of the stream was ever reported" : "an armed idle task never reported its timeout");
       label("never_reported_rerun");
       continue;  // reported only if it happens in 3 of 3 runs
     }
+    if (c.final_reset && !o.log_overflow) { PBT_REQUIRE(resets_reported == 1, "the peer reset the connection while its last " << c.final_reset << " byte(s) were still queued: ECONNRESET was reported " << resets_reported << " times (the data arrived, the error was dropped)"); nt = true; }
     PBT_REQUIRE(!o.foreign_thread, "callback on a thread other than the task's");
     PBT_REQUIRE(!o.bad_udata, "a callback received a user pointer other than the one the task was given" << (c.setup_mode ? " through tp_task_udata_set()" : ""));
     PBT_REQUIRE(!o.accessor_mismatch, "a tp_task_*_get() accessor did not return what the matching setter stored");
@@ -499,6 +510,7 @@ static rc::Gen<ScriptCase> genScript() {
     c.on_timeout = *rc::gen::weightedElement<int>({{1, 0}, {2, 1}});
     c.pause_data_k = (c.ev_flags == 2) ? *rc::gen::weightedElement<int>({{3, 0}, {1, 1}, {1, 2}}) : 0;
     c.setup_mode = *rc::gen::weightedElement<int>({{2, 0}, {1, 1}});
+    c.final_reset = *rc::gen::weightedElement<int>({{3, 0}, {1, 1}, {1, 2}, {1, 3}});
     c.buf_size = *rc::gen::element(32, 64, 200, 512, 2048);
     c.win_off = *rc::gen::weightedElement<int>({{2, 0}, {3, *range<int>(0, c.buf_size - 8)}});
     c.win_len = *rc::gen::weightedElement<int>({{2, c.buf_size - c.win_off}, {3, *range<int>(4, c.buf_size - c.win_off)}});
